@@ -34,13 +34,16 @@ pub struct Kind {
     /// reopen density in percent (sqlite only): probability of re-creating the storage object
     /// (schema setup re-run) before an operation
     pub reopen_pct: u32,
+    /// HTTP entry reached over a real TCP socket (an in-process `HttpServer`), so that actix's
+    /// HTTP/1 codec is in the path
+    pub socket: bool,
 }
 
 impl Kind {
-    pub const MEM_LIB: Kind = Kind { backend: Backend::Mem, entry: Entry::Lib, reopen_pct: 0 };
-    pub const MEM_HTTP: Kind = Kind { backend: Backend::Mem, entry: Entry::Http, reopen_pct: 0 };
-    pub const SQL_LIB: Kind = Kind { backend: Backend::Sqlite, entry: Entry::Lib, reopen_pct: 0 };
-    pub const SQL_HTTP: Kind = Kind { backend: Backend::Sqlite, entry: Entry::Http, reopen_pct: 0 };
+    pub const MEM_LIB: Kind = Kind { backend: Backend::Mem, entry: Entry::Lib, reopen_pct: 0, socket: false };
+    pub const MEM_HTTP: Kind = Kind { backend: Backend::Mem, entry: Entry::Http, reopen_pct: 0, socket: false };
+    pub const SQL_LIB: Kind = Kind { backend: Backend::Sqlite, entry: Entry::Lib, reopen_pct: 0, socket: false };
+    pub const SQL_HTTP: Kind = Kind { backend: Backend::Sqlite, entry: Entry::Http, reopen_pct: 0, socket: false };
     pub fn name(&self) -> String {
         format!(
             "{}/{}{}",
@@ -52,7 +55,7 @@ impl Kind {
                 Entry::Lib => "lib",
                 Entry::Http => "http",
             },
-            if self.reopen_pct > 0 { format!("+reopen{}", self.reopen_pct) } else { String::new() }
+            if self.socket { "+socket".to_string() } else if self.reopen_pct > 0 { format!("+reopen{}", self.reopen_pct) } else { String::new() }
         )
     }
 }
@@ -78,6 +81,7 @@ impl Config {
 enum Front {
     Lib(Arc<Server>),
     Http(HttpApp),
+    Sock(crate::net::SockServer),
 }
 
 /// Harness-side handle to the storage a library `Server` owns, through the server's own
@@ -166,7 +170,7 @@ impl Subject {
                 let own = SqliteStorage::new(self.dir.as_ref().unwrap().path()).expect("open sqlite storage");
                 match entry {
                     Entry::Lib => Front::Lib(Arc::new(Server::new(cfg, own))),
-                    Entry::Http => Front::Http(self.mk_app(WebServer::new(cfg, self.allowlist.clone(), own))),
+                    Entry::Http => self.http_front(WebServer::new(cfg, self.allowlist.clone(), own)),
                 }
             }
             (None, Backend::Mem, Entry::Lib) => {
@@ -174,14 +178,33 @@ impl Subject {
                 self.storage = Arc::new(ViaServer(server.clone()));
                 Front::Lib(server)
             }
-            (None, Backend::Mem, Entry::Http) => Front::Http(self.mk_app(WebServer::new(cfg, self.allowlist.clone(), Shared(self.storage.clone())))),
+            (None, Backend::Mem, Entry::Http) => self.http_front(WebServer::new(cfg, self.allowlist.clone(), Shared(self.storage.clone()))),
         });
+    }
+
+    fn http_front(&self, web: WebServer) -> Front {
+        if self.kind.socket {
+            match crate::net::SockServer::start(web.clone(), 2) {
+                Ok(s) => return Front::Sock(s),
+                Err(_) => {}
+            }
+        }
+        Front::Http(self.mk_app(web))
     }
 
     fn mk_app(&self, web: WebServer) -> HttpApp {
         let mut app = HttpApp::new(web);
         app.tap = self.tap.clone();
         app
+    }
+
+    fn sock_call(&self, addr: &str, h: &HttpReq) -> HttpResp {
+        let framing = if h.body_len() % 2 == 0 { crate::http::Framing::ContentLength } else { crate::http::Framing::Chunked };
+        let r = crate::http::socket_request(addr, h, framing, std::time::Duration::from_secs(30));
+        if let Some(t) = &self.tap {
+            t(h, &r);
+        }
+        r
     }
 
     pub fn set_tap(&mut self, tap: crate::http::Tap) {
@@ -218,10 +241,12 @@ impl Subject {
     }
 
     pub fn http(&mut self, req: &HttpReq) -> HttpResp {
-        match self.front.as_mut().unwrap() {
-            Front::Http(app) => app.request(req),
+        let addr = match self.front.as_mut().unwrap() {
+            Front::Http(app) => return app.request(req),
+            Front::Sock(s) => s.addr.clone(),
             Front::Lib(_) => panic!("http request on a library subject"),
-        }
+        };
+        self.sock_call(&addr, req)
     }
 
     pub fn build_http(client: Uuid, req: &Req) -> HttpReq {
@@ -290,6 +315,14 @@ impl Subject {
                 d
             }
             Front::Lib(server) => lib_exec(server, client, req, true),
+            Front::Sock(s) => {
+                let addr = s.addr.clone();
+                let h = Self::build_http(client, req);
+                let r = self.sock_call(&addr, &h);
+                let d = Self::decode_http(req, &r);
+                self.last_http = Some((h, r));
+                d
+            }
         }
     }
 
@@ -297,7 +330,7 @@ impl Subject {
     pub fn exec_lib_raw(&mut self, client: Uuid, req: &Req) -> Resp {
         match self.front.as_mut().unwrap() {
             Front::Lib(server) => lib_exec(server, client, req, false),
-            Front::Http(_) => panic!("exec_lib_raw on http subject"),
+            _ => panic!("exec_lib_raw on http subject"),
         }
     }
 }
